@@ -369,7 +369,7 @@ func (c *c19ctx) injectB1(n int) {
 	// the position
 	j := c.r.IntN(nf)
 	k := c.r.IntN(len(files[j].docs))
-	jsonStream := kind == "syntax" && c.r.IntN(2) == 0
+	jsonStream := kind == "syntax" && c.r.IntN(3) > 0
 	if jsonStream {
 		// JSON streams (format taken from the extension of the first file): the malformed spot sits between documents
 		for fi, f := range files {
@@ -382,7 +382,7 @@ func (c *c19ctx) injectB1(n int) {
 		b := c19BrokenDocs[c.r.IntN(len(c19BrokenDocs))]
 		if jsonStream {
 			// (pure garbage only: `{"a":1,}` and `{"a" 1}` are accepted by the lenient JSON reader, which is not this check's business)
-			b = []string{"}", "]", "}}", `{"a": }`, `[1,2`, "nul", "@", "}", "]"}[c.r.IntN(9)]
+			b = []string{"}", "]", "}}", `{"a": }`, `[1,2`, "nul", "@", "}", "]", "]]", "} ", "]}", "}"}[c.r.IntN(13)]
 		}
 		files[j].docs[k] = c19Doc{text: b}
 		c.note("broken_document", b)
